@@ -26,6 +26,10 @@ CHECKS = {
     "C03": kernel("mm/pmm", pmm(["c01c03_test.go"]), "TestVerifPMM", "model_checking",
                   {"quick": dict(shards=16, timeout=600), "thorough": dict(shards=16, timeout=3000)},
                   assumptions=["same exploration as C01 with the accounting / error-contract oracles"]),
+    "C13": kernel("device/acpi/aml", {"harness/aml/c13_test.go": K + "device/acpi/aml/zz_verif_c13_test.go"}, "TestVerifC13", "model_checking",
+                  {"quick": dict(shards=8, timeout=600), "thorough": dict(shards=16, timeout=3000, budget=1500)},
+                  assumptions=["operations are issued only when their documented preconditions hold (child detached, sibling is a child of the parent, freed object has no children)",
+                               "names are drawn from {AAAA, BBBB, unnamed}; CCCC is the absent name in lookups"]),
     "C17": kernel("device/tty", {"harness/tty/vt_test.go": K + "device/tty/zz_verif_vt_test.go"}, "TestVerifVT", "model_checking",
                   {"quick": dict(shards=16, timeout=600), "thorough": dict(shards=16, timeout=3000, budget=1500)},
                   assumptions=["the console behind the terminal is a reference cell-grid console (the shipped drivers are bound in C18/C19)",
